@@ -178,7 +178,10 @@ def run(tier, seed):
         res.merge(grid.split_tasks(common.pmap, chunk, ten, (seed,), 0, 0))
         more_desc = "%d three-writer configurations at <= %d deviations and the 10-server grid at the canonical order" % (len(more), d - 1)
     else:
-        more_desc = "%d further configurations %r (k,N,S,writers) x formats at <= %d deviations" % (len(more), MORE, d - 1)
+        ten = [c for c in more if c["S"] == 10]
+        more = [c for c in more if c["S"] != 10]
+        res.merge(grid.split_tasks(common.pmap, chunk, ten, (seed,), d - 2, 0))
+        more_desc = "%d three-writer configurations x formats at <= %d deviations, the 10-server grid (3-of-10, two writers, both formats) at <= %d" % (len(more), d - 1, d - 2)
     res.merge(grid.split_tasks(common.pmap, chunk, more, (seed,), d - 1, 0))
     # encryption / hashing in the thread pool complete as scheduled events the other writer's calls can overtake
     res.merge(grid.split_tasks(common.pmap, chunk, [dict(c, cpu=True) for c in cases], (seed,), d - 1, 0))
